@@ -1,7 +1,74 @@
-(* C07 -- placeholder until the lemmas land *)
-From Tola Require Import Py.Base Model.Fragment Model.Scaffold Model.Namer Model.Remap.
+(* C07 -- Every join carries a gap and retained neighbours keep their input gap.
+   Only statements, each closed by [exact] of a lemma from Proofs/JoinGaps.v.
+   Proved: the structure of every fused output scaffold.  The provenance of
+   each gap row on PretextView-model maps (input gap of the same neighbours or
+   the join gap) is decided by the correspondence + oracle only. *)
+From Tola Require Import Py.Base Model.Fragment Model.Scaffold Model.OverlapResult Model.OvrSpec
+  Model.Namer Model.Remap Proofs.JoinGaps.
 
-Lemma C07_canon_example :
-  canon_junction (JSIIS (s "b") 5 9 (s "a")) = JSIIS (s "a") 9 5 (s "b").
-Proof. vm_compute. reflexivity. Qed.
-Print Assumptions C07_canon_example.
+(* every fused scaffold is the join, with the join gap between consecutive
+   pieces, of the rows of the non-empty pieces carrying its key, in fusion order *)
+Theorem C07_fuse_is_join : forall g pieces k b,
+  aget fuse_key_eqb (fold_left (fuse_step repaired g) pieces []) k = Some b ->
+  sc_rows b = join_rows g (map (fun p => sc_rows (fst p))
+                               (filter (fun p => match sc_rows (fst p) with
+                                                 | [] => false
+                                                 | _ => fuse_key_eqb (piece_key repaired (fst p)) k
+                                                 end) pieces)).
+Proof. exact fuse_fold_is_join. Qed.
+Print Assumptions C07_fuse_is_join.
+
+(* every fusion boundary carries the join gap, for overlap results and for
+   left-over scaffolds alike *)
+Theorem C07_fusion_boundary_has_gap : forall g acc sc isr b,
+  sc_rows sc <> [] ->
+  aget fuse_key_eqb acc (piece_key repaired sc) = Some b -> sc_rows b <> [] ->
+  exists b', aget fuse_key_eqb (fuse_step repaired g acc (sc, isr)) (piece_key repaired sc) = Some b'
+             /\ sc_rows b' = sc_rows b ++ RG g :: sc_rows sc.
+Proof. exact fuse_step_boundary. Qed.
+Print Assumptions C07_fusion_boundary_has_gap.
+
+(* no output scaffold begins or ends with a gap, provided no piece does ... *)
+Theorem C07_no_terminal_gap : forall g pieces k b,
+  Forall (fun p => sc_rows (fst p) = [] \/ no_terminal_gap (sc_rows (fst p))) pieces ->
+  aget fuse_key_eqb (fold_left (fuse_step repaired g) pieces []) k = Some b ->
+  no_terminal_gap (sc_rows b).
+Proof. exact fused_no_terminal_gap. Qed.
+Print Assumptions C07_no_terminal_gap.
+
+(* ... and no piece does: overlap results (by the C18 invariant, in either
+   orientation) and left-over scaffolds begin and end with a fragment *)
+Theorem C07_results_have_no_terminal_gap : forall r,
+  consistent r -> o_rows r = [] \/ no_terminal_gap (to_scaffold_rows r).
+Proof. exact to_scaffold_rows_ok. Qed.
+Print Assumptions C07_results_have_no_terminal_gap.
+Theorem C07_leftovers_have_no_terminal_gap : forall found g rows,
+  missing_rows found g rows None 0 None = []
+  \/ no_terminal_gap (missing_rows found g rows None 0 None).
+Proof. exact missing_rows_no_terminal_gap. Qed.
+Print Assumptions C07_leftovers_have_no_terminal_gap.
+
+(* two fragments are directly adjacent in an output scaffold only inside one
+   piece: inside one overlap result (a contiguous run of an input scaffold,
+   C18) or inside the left-over rows of one input scaffold, where direct
+   adjacency means they were adjacent rows of the input *)
+Theorem C07_adjacent_only_within_piece : forall g pieces k b x y,
+  Forall (fun p => sc_rows (fst p) = [] \/ no_terminal_gap (sc_rows (fst p))) pieces ->
+  aget fuse_key_eqb (fold_left (fuse_step repaired g) pieces []) k = Some b ->
+  adjacent_frags (sc_rows b) x y ->
+  exists p, In p pieces /\ adjacent_frags (sc_rows (fst p)) x y.
+Proof. exact fused_adjacent_only_within_piece. Qed.
+Print Assumptions C07_adjacent_only_within_piece.
+Theorem C07_leftover_adjacency_is_input_adjacency : forall found g rows a b,
+  adjacent_frags (missing_rows found g rows None 0 None) a b -> adjacent_frags rows a b.
+Proof. exact missing_rows_adjacent. Qed.
+Print Assumptions C07_leftover_adjacency_is_input_adjacency.
+
+(* the pinned commit appended left-over pieces without the gap (repaired by a fix: commit) *)
+Theorem C07_legacy_refuted : exists g p1 p2 k b x y,
+  let c := mkCfg true false true true in
+  aget fuse_key_eqb (fold_left (fuse_step c g) [p1; p2] []) k = Some b
+  /\ adjacent_frags (sc_rows b) x y
+  /\ ~ adjacent_frags (sc_rows (fst p1)) x y /\ ~ adjacent_frags (sc_rows (fst p2)) x y.
+Proof. exact legacy_leftover_refuted. Qed.
+Print Assumptions C07_legacy_refuted.
